@@ -141,7 +141,9 @@ func checkC01(c C01Case, r *Rec) *Violation {
 		log.Reset()
 		ref4 := newRef()
 		rv4, rerr4 := ref4.Eval(c.Tree)
-		foreignActivity(int(hash64(src) % 1000))
+		if hash64(src)%8 == 0 {
+			foreignActivity(int(hash64(src) % 1000))
+		}
 		// the one-shot helper gets a bindings map that also holds names the config does not know
 		vals4 := map[string]interface{}{"zz_unrelated_1": int64(900000), "zz_unrelated_2": "x", "zz_unrelated_3": true}
 		for k, v := range vals {
